@@ -133,17 +133,31 @@ func (m *Machine) mkTimerObj(typeName string, periodic bool) value {
 	return obj
 }
 
-func extNewTimer(fr *frame, a []value) value { return fr.i.mkTimerObj("Timer", false) }
+func extNewTimer(fr *frame, a []value) value {
+	obj := fr.i.mkTimerObj("Timer", false)
+	fr.i.findTimer(obj.(*value)).dur = concDur(a[0])
+	return obj
+}
+
+func concDur(v value) int64 {
+	if d, ok := v.(int64); ok {
+		return d
+	}
+	return 0
+}
 func extNewTicker(fr *frame, a []value) value {
 	if d, ok := a[0].(int64); ok && d <= 0 {
 		panic(targetPanic{iface{types.Typ[types.String], "non-positive interval for NewTicker"}})
 	}
-	return fr.i.mkTimerObj("Ticker", true)
+	obj := fr.i.mkTimerObj("Ticker", true)
+	fr.i.findTimer(obj.(*value)).dur = concDur(a[0])
+	return obj
 }
 
 func extTimeAfter(fr *frame, a []value) value {
 	m := fr.i
 	obj := m.mkTimerObj("Timer", false).(*value)
+	m.findTimer(obj).dur = concDur(a[0])
 	return m.findTimer(obj).ch
 }
 
@@ -154,6 +168,7 @@ func extAfterFunc(fr *frame, a []value) value {
 	*obj = zero(tp)
 	vt := m.newVTimer(obj, false)
 	vt.fn = a[1]
+	vt.dur = concDur(a[0])
 	return obj
 }
 
@@ -188,6 +203,9 @@ func extTimerReset(fr *frame, a []value) value {
 	}
 	was := vt.active
 	vt.active = true
+	if len(a) > 1 {
+		vt.dur = concDur(a[1])
+	}
 	if vt.ch != nil && !m.asyncTimerChan {
 		vt.ch.buf = nil
 	}
